@@ -110,6 +110,22 @@ theorem get_used_self (fs : FS) (now : Int) (file : Bytes) :
     · simp [h]
     · simp [get_chtimes, h]
 
+theorem dataOf_refreshReused (fs : FS) (now : Int) (file m : Bytes) : dataOf (refreshReused fs now file) m = dataOf fs m := by
+  unfold refreshReused
+  split
+  · exact dataOf_used _ _ _ _
+  · split
+    · exact dataOf_chtimes _ _ _ _
+    · rfl
+
+theorem get_refreshReused_ne (fs : FS) (now : Int) (file m : Bytes) (h : m ≠ file) : (refreshReused fs now file).get m = fs.get m := by
+  unfold refreshReused
+  split
+  · exact get_used_ne _ _ _ _ h
+  · split
+    · simp [get_chtimes, h]
+    · rfl
+
 /-! ### file names -/
 
 theorem Hash.take1_length (h : Hash) : (h.val.take 1).length = 1 := by
